@@ -141,6 +141,111 @@ P = {
          'forced recomputation the log describes the failed run while data and run info are the earlier successful run\'s — observed, not judged',
     technique='Lean 4 proof (invariant + induction over run sequences) + proved counterexample + differential correspondence',
     ref='§4 C18'),
+ 'C11': dict(
+    text='Lean 4 theorems over the executable model TCV.Subst (scan = the segmentation re.subn(r"{(.*?)}") induces, as a one-pass '
+         'scanner over List Char with four declarative equations proved; substStr = _apply; substTree = search_and_replace_placeholders; '
+         'ReprStrObj = the state of a ReprStr instance): for every environment, string and JSON-like value of any depth the result is '
+         '_apply on every string leaf with shape, keys and non-string data unchanged, and shape+leaves determine it (subst_all_leaves, '
+         '_unique); text unchanged when no matched name is defined, matched names never contain `}` or a newline (undefined_untouched, '
+         'matched_names_clean); segmentation lossless and the replacement is inserted verbatim, the rest processed independently '
+         '(render_scan, subst_once); a second application under any global_vars is the identity (subst_idempotent, subst_fixed_point); '
+         'value = substituted text and == the plain string (value_is_plain_text); representation = Python repr of the source as soon as '
+         'the pattern matched, independent of the substituted values for whole structures and for object-definition texts '
+         '(repr_keeps_placeholder, repr_ignores_values, objdef_repr_ignores_values); copies keep all three fields, deepcopy is the '
+         'identity on values (copy_keeps_repr, deepcopy_keeps_repr), the pre-F6 copy provably changes the repr. Correspondence per run: '
+         'brace-grammar strings in nested structures x global_vars as dict / dict subclass / object (class attrs, instance attrs, '
+         'property, dunder attributes) through search_and_replace_placeholders, Config(data, context, for_namespaces, object '
+         'definitions), Parameter.value/value_repr (no dtype, str, Path), real chains (keys under two value assignments, deep-copied '
+         'config, stored result) and `uses` paths of config and context files; every leaf compared in text, repr source and type tag, '
+         'plus second application, deepcopy, object-definition text, literal keys; independent regex-free reference as oracle.',
+    note='re.subn for the one pattern is modelled (argument in Model/Subst.lean, tied by the correspondence on every run); global_vars is '
+         'a lookup name -> str(value); tuples/sets in config data are outside the domain (the code raises); context merging itself is '
+         "C09's business (the check uses whole-key overrides only); three defects found while building were repaired (F11, F12; F14 for C20). "
+         'Not modelled: import_by_string, YAML scalars',
+    technique='Lean 4 proof (structural induction over the scanner and over nested values) + differential correspondence + reference oracle',
+    ref='§4 C11'),
+ 'C20': dict(
+    text='Lean 4 theorems over TCV.Migrate.migrate (state = source tree x target tree, a tree = result map + directories; one loop step '
+         'per task exactly as migrate_to_parameter_mode: has_data side effects, size assertion, copy unless dry): for every task list and '
+         'all trees, if results sharing a target location agree and the target holds at task locations only the source results (fresh, or '
+         'left by an earlier migration) a real migration succeeds and the target is the closed form "source result of the first '
+         'persisting task with a result at that location, unchanged elsewhere" (migrate_exact; per task with a fresh target: exactly the '
+         'persisting tasks that had a result, migrate_exact_per_task); a second migration succeeds and changes no result '
+         '(migrate_idempotent); a dry run changes no result location of either tree (dry_writes_nothing); no source result changes, no '
+         'directory disappears, new directories are task / _tmp directories of persisting tasks (source_untouched). K5: "source tree '
+         'unchanged" is proved false on the witness; it is proved under the decidable hypothesis that those directories exist already '
+         '(source_untouched_partial). Correspondence per run: generated file-based pipelines (all storable kinds, namespaces, contexts, '
+         'placeholders, large results) partially computed in name mode x {dry, real, twice, dry-real, pre-populated target, foreign file} '
+         'and parts of multi-part files / namespace argument: result files (location, size, digest) and directories of both trees after '
+         'every invocation equal the model; oracle: source bytes unchanged, target = exactly the computed persisting tasks, values '
+         'equal, nothing run, second run and dry run change nothing.',
+    note='partial (K5): the source gains empty directories (reported as KNOWN-FINDING for every case of the class; created files or changed '
+         'contents would be a VIOLATION); task locations in both chains are inputs of the model (extracted from the real chains, their '
+         'derivation is C12/C02/C03); "nothing is run afterwards" is observed on the real code (run log), in the model it is C04; '
+         'shutil copies and st_size are trusted; leftover <name>_tmp directories with contents in the source are outside the domain '
+         '(DirData.init_persistence deletes them)',
+    technique='Lean 4 proof (induction over the task list with a closed form) + proved counterexample + differential correspondence with tree checksums',
+    ref='§4 C20'),
+ 'C19': dict(
+    text='Lean 4 theorems over TCV.TestM: the lazy pull machine of Task.data over a universe with value-only nodes (MockTask, defaults of '
+         'absent inputs) and real tasks, for arbitrary task functions f; for every universe, request, fuel and every initial state whose '
+         'store holds no foreign result (in particular a fresh base_dir) whatever the helper yields equals what the real chain yields - '
+         'the chain in which every mock is a constant task and locations are key-derived - namely f applied to the input values in use '
+         'order (test_value_eq_real_partial/_fresh, good_preserved); K4: with a reused base_dir the second helper returns the first '
+         'result (k4_second_returns_first), so the unrestricted statement is proved false (test_value_eq_real_full_false); mocks are never '
+         'run, never memoised, never stored, for all requests and states (mocks_never_run_never_stored, mock_value); construction succeeds '
+         'iff every declared parameter has a value or default and every declared input is a task, a mock or has a default, and fails '
+         'naming such a parameter (checked first) or input otherwise (missing_reported_at_construction). Correspondence per run: generated '
+         'families (inputs by class / name / qualified name, optional inputs, run arguments vs pulled vs unused, defaults, parameter '
+         'objects, JSON-persisting and in-memory classes) x splits into real tasks and mocks (by class or name, falsy values, mock '
+         'overriding a given task) through TestChain and create_test_task: values, run log, files under base_dir and construction errors '
+         'equal the model; oracle: the same family as a real parameter-mode chain with constant upstream tasks.',
+    note='partial (K4): hypothesis "base_dir holds no foreign result"; reuse of an explicit base_dir with another assignment is generated, '
+         'the model reproduces the stale value and the mismatch with the real chain is reported as KNOWN-FINDING, anything outside that '
+         'class is a VIOLATION; names resolve exactly in the model (C10 covers resolution; generated families have unique short names); a '
+         'None mock has no real-chain counterpart (a task cannot return None) and is compared with the model only; kinds json/in-memory '
+         '(round trips are C06)',
+    technique='Lean 4 proof (fuel induction with a store invariant, frame invariant for mocks) + proved counterexample + differential correspondence against helper and real chain',
+    ref='§4 C19'),
+ 'C05': dict(
+    text='Lean 4 theorems over the executable model TCV.FS of the file protocols of data.py and the try/except of Task.data (path roles '
+         'final/tmp/old/error/log/runinfo; nodes absent|file complete/torn/empty|dir complete/partial; primitives open-truncate, non-atomic '
+         'write, atomic rename/move, non-atomic rmtree, mkdir, unlink; guarded protocols per data class as the code is after repairs F7a/F7b): '
+         'for every data class, value, raise point, first/forced/reusing request, every well-typed initial state with arbitrary leftovers and every '
+         'crash point k including half-done primitives, the final name shows nothing or a complete old/new result (crash_safe, from the '
+         'class-independent lemma "final is touched only by atomic renames of a staged complete node", proved by induction over the protocol); '
+         'exceptions leave the final name unchanged and reset the data object (exception_safe); from every such state an uninterrupted request '
+         'succeeds and publishes exactly the returned value (recovers); failed DirData work is moved to <key>_error, ContinuesData work survives '
+         'failure, crash and restart until finished(); delete is atomic too. Correspondence on every run: audit-hook protocol extraction of the '
+         'real request for every class x mode x raise point diffed with the model trace/outcome/state, then one killed process per file operation '
+         '(incl. inside rmtree and per file of a work directory) and torn prefixes of every written file, state at the crash point and the later '
+         'process\' has_data/value/run count/state and a forced recomputation diffed with the model; random two-fault histories; model-independent oracle.',
+    note='partial: atomicity of rename on one file system, "a killed process leaves a prefix", and what a reader does with torn bytes are OS/library '
+         'behaviour (assumed/sampled); durability (fsync) out of scope; FigureData has the file-class protocol in the model but is not exercised '
+         '(its .png/.svg side files are outside the model); log/run-info content is not modelled here (C18); crash children are forked from a '
+         'warmed-up worker, a sample is re-run in fresh interpreters and must agree; one crash or two faults per history in the correspondence '
+         '(the theorems have no such bound: every crash state satisfies the hypotheses of crash_safe/recovers again)',
+    technique='Lean 4 proof (induction over protocols, symbolic execution over all state shapes) + audit-hook protocol extraction + crash replay',
+    ref='§4 C05'),
+ 'C06': dict(
+    text='Lean 4 theorems about taskchain\'s own part of the round trip, with the serializers as parameters: glue_roundtrip (type check, '
+         'is-None guards, set_value/save/fresh object/exists/load/value return exactly what run returned, for classes that re-read the file '
+         'and those that do not), none/mistyped results rejected, falsy values pass, jsonl_framing (write_jsons/iter_json_file restore the item '
+         'encodings for every item count whenever they contain no raw line break and are not white-space bordered), listOfNumpy_order (numeric '
+         'sort of i.npy restores the list for every length and every directory enumeration order; proved counterexample for the lexicographic '
+         'sort at 11 arrays), load_pure (the load branch executes no primitive on the result), and for JSON text json_roundtrip (fuelled '
+         'recursive-descent decoder inverts the orjson-compact encoder on all values: any nesting, all of Unicode, any integer, float tokens) '
+         'with encode_framed, which discharges the framing hypothesis, so jsonl_json_roundtrip holds outright. Correspondence on every run: '
+         'type-directed values per data class through real tasks (computing chain, later chain, shuffled directory enumeration, forced '
+         'recomputation with a shorter list), type-strict comparison with what run returned, stored bytes and mtime unchanged by loading, '
+         'traced reload writes nothing; stored JSON bytes equal the model\'s indent-2/sort-keys encoder, the model\'s decoder agrees with the '
+         'loaded value, json-lines text/rows and ListOfNumpyData names/order equal the model.',
+    note='partial: numpy/pandas/pickle/orjson round trips are assumptions (Codec.Faithful) sampled by the check, not proved; the round-trip '
+         'theorem for JSON text is proved for the compact form, the indent-2/sort-keys form is tied by byte equality + decoder agreement only; float '
+         'printing is a parameter (tokens); outside the domain and not generated: NaN/inf, tuples, non-string keys, >64-bit ints, object arrays, '
+         'FigureData; the later chain is a new object graph in the same interpreter',
+    technique='Lean 4 proof (parser/printer mutual induction, permutation/sortedness, list framing) + differential correspondence + direct round-trip oracle',
+    ref='§4 C06'),
 }
 
 checks, na = [], []
